@@ -222,3 +222,12 @@ COINBASE_TXS = [
              [(50 * 10 ** 8, P2(8))], 0),
     build_tx(1, [(Z32, 0xFFFFFFFF, CB_SCRIPT, 0xFFFFFFFF)], [(50 * 10 ** 8, P2(9))], 0),                                           # a real coinbase shape
 ]
+
+
+# "the rest looks like data" shapes: OP_RETURN (top level and inside branches) with separators before / after it, OP_FALSE OP_RETURN
+# <pushes> <separator>, separators inside push payloads (must stay), separator as last byte, only separators
+RETURN_SCRIPTS = ["76abac6aab02beefab", "6aab", "ab6a", "6aabab", "ab6aab6aab", "006aab", "00ab6a", "006a02beefab", "006a02abab", "006a02ababab51",
+                  "006a4c03abababab", "6a01abab", "6a01ab", "51ab6a4c02ababab", "63ab6aab68ab", "636a67ab6aab68", "636a68ab", "6a63ab68", "64006aab6751ab68ab6aab",
+                  "6a", "006a", "abababab", "ab", "6aab6a", "76a914" + "ab" * 20 + "88ac6aab", "6a04abababab02abab"]
+SEP_SCRIPTS += RETURN_SCRIPTS
+CORE_SEP += ["76abac6aab02beefab", "006a02beefab", "636a67ab6aab68", "ab6aab6aab"]
